@@ -25,7 +25,7 @@ ASSUMPTIONS = [
 ]
 STEPS = [(0, 0, 0), (3, 0, 0), (0, 3, 1), (10, 3, 0), (3, 10, 2), (-2, 0, 0), (3, -2, 0), (0, 0, 3), (10, 10, 0), (10, -1, 0), (3, -3, 0), (-3, 0, 0), (0, 0, -3)]
 FIRST = [(0, 0, 0), (5, 3, 1)]
-LATEST = [40.0, 93.5, 100.0]
+LATEST = [40.0, 93.5, 100.0, 104.2]  # turnout can come in above the expected vote
 SELFCHECK_INDEX = 2
 
 
